@@ -62,7 +62,7 @@ impl Monitor for C10 {
         v
     }
     fn mandatory_buckets(&self, _tier: Tier) -> Vec<String> {
-        ["full_key_sweeps", "more_than_65536_terms", "binary_round_trip_swept", "obo_loader_swept", "id_0_present", "id_9999999_present", "add_beyond_id_space_attempted", "name_queries"]
+        ["full_key_sweeps", "more_than_65536_terms", "binary_round_trip_swept", "obo_loader_swept", "alternating_lookups", "id_0_present", "id_9999999_present", "add_beyond_id_space_attempted", "name_queries"]
             .iter()
             .map(|s| (*s).to_string())
             .collect()
@@ -422,6 +422,35 @@ impl Monitor for C10 {
                     format!("hpo({id}) = {got:?}, added = {exp}")
                 }),
                 Err(p) => out.violate("C10", "panic:hpo_above_id_space", format!("hpo({id}) panicked: {}", p.message)),
+            }
+        }
+
+        // ---- alternating lookups on two live ontologies with different term sets (a lookup must depend on
+        // the ontology it is asked of, not on what was looked up before)
+        if added.len() <= 64 {
+            let other: BTreeSet<u32> = added.iter().copied().filter(|_| rng.chance(1, 2)).chain([3u32, 5_000_001]).collect();
+            let ob = guard(|| {
+                let mut b2 = Builder::new();
+                for id in &other {
+                    b2.new_term(&format!("other {id}"), *id);
+                }
+                b2.terms_complete().connect_all_terms().calculate_information_content().unwrap().build_minimal()
+            });
+            if let Ok(ob) = ob {
+                out.bucket("alternating_lookups");
+                let probe: BTreeSet<u32> = added.iter().chain(other.iter()).copied().filter(|i| *i < ID_SPACE).collect();
+                for _round in 0..2 {
+                    for id in &probe {
+                        bump_n(&mut out.events, "Ontology::hpo", 2);
+                        let ga = ont.hpo(*id).map(|t| t.name().to_string());
+                        let gb = ob.hpo(*id).map(|t| t.name().to_string());
+                        let ea = added.contains(id).then(|| names[id].clone());
+                        let eb = other.contains(id).then(|| format!("other {id}"));
+                        out.check(ga == ea && gb == eb, "C10", "lookup_depends_on_earlier_calls", || {
+                            format!("alternating lookups of {id}: first ontology {ga:?} (expected {ea:?}), second ontology {gb:?} (expected {eb:?})")
+                        });
+                    }
+                }
             }
         }
 
